@@ -31,7 +31,16 @@ def items(tier):
             for a in ("1/2", "3"):
                 P, N = (2, 1) if METRICS[metric][0] == "pos" else (1, 2) if METRICS[metric][0] == "neg" else (2, 1)
                 out.append({"kind": "affine_thr", "sc": sc, "ec": ec, "metric": metric, "P": P, "N": N, "a": a})
+    # GroupScores.swap(): the group-aware variant of the class swap (harness shared with C12)
+    for sc, ec in CFGS[:2] if tier == "quick" else CFGS:
+        out.append({"kind": "group_swap", "sc": sc, "ec": ec, "P": 2, "N": 2 if tier == "thorough" else 1, "G": 2})
     return out
+
+
+def run_group_swap(h, sc, ec, P, N, G):
+    from . import C12
+
+    return C12.run_structure(h, sc, ec, P, N, G)
 
 
 def run(h, kind, **p):
